@@ -106,8 +106,10 @@ CHECKS = {
     "C15": {
         "text": "PARTIAL: the decoder's placement protocol (zeroed plan, "
                 "ascending day scan, paired mirrored stores only when both "
-                "cells are free, break) is decided from guard conditions "
-                "and block structure; home != away on all orderings; the "
+                "cells are free, break - or the search-then-write form "
+                "whose stores re-check both cells of the final day) is "
+                "decided from guard conditions, which must be EXACTLY "
+                "'both cells free'; home != away on all orderings; the "
                 "search-space generator appends exactly one code per "
                 "(round, unordered pair) and - using the kernel's own "
                 "decoding arithmetic and Euclidean division with a "
@@ -153,7 +155,12 @@ CHECKS = {
                 "string's positional fields, separators, IDX_* columns and "
                 "default multiplicity agree between writer and reader; "
                 "game-plan and ordering log texts put the data first and "
-                "their readers keep exactly the first line and validate.",
+                "their readers keep exactly the first line and validate; "
+                "keys of mapping-valued record fields (bin bounds) are read "
+                "back unchanged (scope stripping of csv_select_scope "
+                "modelled, skip_orig_key predicates folded on the keys the "
+                "repository produces); every range accepted by "
+                "Instance.__new__ is accepted by from_compact_str.",
         "design_ref": "DESIGN.md section 4, C19",
         "note": "Does NOT decide equality of values / derived attributes "
                 "after a round trip (runtime conversion). Relies on the "
@@ -193,9 +200,12 @@ CHECKS = {
                 "0<=v<=1e100, and - in the surrogate optimizer - that "
                 "disabling initialize() and entering model mode are closed "
                 "again on every normal path before the loop repeats, before "
-                "process.evaluate and before returning.",
+                "process.evaluate and before returning; initialize() "
+                "empties every list any method grows (under a guard that "
+                "is None-equivalent to the list), the collections grow in "
+                "the same block, and initialize() returns to real mode.",
         "design_ref": "DESIGN.md section 4, C11",
-        "note": "Decides D11.1-D11.5 (D11.6 = C16 D16.6). Does not decide "
+        "note": "Decides D11.1-D11.6 (controller purity = C16 D16.6). Does not decide "
                 "history dependence that lives inside scipy/numba. "
                 "Exceptional paths are not modelled.",
         "technique": "effects / field-write analysis + CFG "
